@@ -56,6 +56,7 @@ PROP = dict(
         R("classof", "A", "./c10", "TestC10ClassOf", (100000, 2), (400000, 16)),
         R("noop", "A", "./c10", "TestC10NoOp", (80000, 2), (400000, 16)),
         R("rowscaler", "B", "./cmd/benchstat", "TestC10RowScaler", (20000, 2), (300000, 8)),
+        R("rowlabel", "B", "./cmd/benchstat", "TestC10RowLabel", (300, 2), (4000, 8)),
         F("fuzz", "./c10", "FuzzC10", 60),
     ],
 )
